@@ -118,7 +118,10 @@ Directives == {
   [k |-> "account", name |-> "資産:銀行口座", details |-> <<[k |-> "alias", v |-> "銀行"], [k |-> "alias", v |-> "Bank JP"]>>],
   [k |-> "commodity", name |-> "USD", details |-> <<>>],
   [k |-> "commodity", name |-> "USD", details |-> <<[k |-> "note", v |-> <<"US dollar">>], [k |-> "alias", v |-> "US$"], [k |-> "format", v |-> [n |-> StripN(NFmt), c |-> "USD"]], [k |-> "comment", v |-> <<"remark">>]>>],
-  [k |-> "commodity", name |-> "円", details |-> <<[k |-> "format", v |-> [n |-> StripN(NPlain), c |-> "円"]]>>]
+  [k |-> "commodity", name |-> "円", details |-> <<[k |-> "format", v |-> [n |-> StripN(NPlain), c |-> "円"]]>>],
+  \* a note may be empty (`note` sp+ nothing), alone or as a paragraph break inside a longer note
+  [k |-> "account", name |-> "Assets:Cash", details |-> <<[k |-> "note", v |-> <<"">>], [k |-> "alias", v |-> "Cash"]>>],
+  [k |-> "commodity", name |-> "CHF", details |-> <<[k |-> "note", v |-> <<"first paragraph", "", "third line">>]>>]
 }
 
 PostingEntries == {Txn(D1, None, "", NoneS, "Payee", <<>>, <<p, POmit(AcctFood)>>) : p \in PostingShapes}
@@ -163,7 +166,7 @@ LayoutDoc ==
   \/ \E w \in 38..50, wide \in BOOLEAN, k \in {1, 5} :
         doc = [entries |-> <<Txn(D1, None, "", NoneS, "Payee", <<>>, <<Post("", WAcct(w, wide, ""), LAmt(LNum(k, 2, FALSE), "AAPL"), Rate(LAmt(LNum(3, 2, FALSE), "USD")),
                  [price |-> Rate(LAmt(LNum(2, 0, FALSE), "USD")), date |-> None, note |-> NoneS], LAmt(LNum(2, 0, FALSE), "AAPL"), <<>>), POmit(AcctA)>>)>>, style |-> Base, tag |-> "layout"]
-  \/ \E cl \in {"", "!"}, w \in 1..60, wide \in BOOLEAN, k \in {1, 6}, sc \in {0, 2}, c \in {"USD", "X"} :
+  \/ \E cl \in {"", "!"}, w \in 1..60, wide \in BOOLEAN, k \in {1, 6}, sc \in {0, 2}, c \in {"USD", "X", "円", "米ドル"} :
         doc = [entries |-> <<Txn(D1, None, "", NoneS, "Payee", <<>>, <<Post(cl, WAcct(w, wide, cl), None, None, NoLot, LAmt(LNum(k, sc, FALSE), c), <<>>), POmit(AcctA)>>)>>, style |-> Base, tag |-> "layout"]
 MCInit ==
   \/ Scenario = "features" /\ \E e \in Catalogue : doc = [entries |-> <<e>>, style |-> Base, tag |-> "base"]
